@@ -2317,6 +2317,14 @@ class Verifier(Engine):
                     if not live and ('::static.' + sn) not in p.env: continue      # declaration not reached on this path
                     for cl in invs: self.check_clause(cl, p, 'static.%s.kept' % sn, what='kept at return: ')
                 self.check_frame(fs, f, p)
+            if fs.exits_iff is not None and len(modes) > 1 and paths:
+                # the exit pair decided by path feasibility alone (every branch into the other side was pruned as infeasible
+                # during execution: an unsat answer of the solver per pruned branch) still shows as one obligation per direction
+                st_ = paths[0][0]
+                if mode == 'accept' and nexit == 0:
+                    self.oblige(st_, z3.BoolVal(True), 'exit_unreachable', 'no exit site is reachable on any of the %d feasible paths of a meaningful request (branches into exit sites were shown infeasible during execution)' % len(paths))
+                if mode == 'reject' and nret == 0:
+                    self.oblige(st_, z3.BoolVal(True), 'no_normal_return', 'none of the %d feasible paths of a meaningless request (%s) returns normally (branches that return were shown infeasible during execution)' % (len(paths), fs.exits_iff.text))
             missing = [k for k in fs.loops if k not in self.loops_seen]
             if missing and mode == 'accept' and not getattr(self, 'fallback_unroll', None):
                 raise E2Error('%s: contract mentions loop(s) %s that were not reached/exist' % (f.qual, missing))
